@@ -75,10 +75,10 @@ def _process_step_expression(
             new_target_assets = []
             match (step_expression['type']):
                 case 'union':
-                    new_target_assets = lh_targets
+                    new_target_assets = list(lh_targets)
                     for ag_node in rh_targets:
                         if next((lnode for lnode in new_target_assets \
-                            if lnode.id != ag_node.id), None):
+                            if lnode.id == ag_node.id), None) is None:
                             new_target_assets.append(ag_node)
 
                 case 'intersection':
